@@ -137,6 +137,11 @@ pub fn family_jobs(tier: Tier, families: &[&str]) -> (Vec<Job>, serde_json::Valu
         jobs.extend(js);
         plan.insert("P".into(), pl);
     }
+    if families.contains(&"T") {
+        let (js, pl) = crate::fam_t::family_t_jobs(tier);
+        jobs.extend(js);
+        plan.insert("T".into(), pl);
+    }
     if families.contains(&"D") {
         let (js, pl) = crate::fam_d::family_d_jobs(tier);
         jobs.extend(js);
@@ -147,7 +152,7 @@ pub fn family_jobs(tier: Tier, families: &[&str]) -> (Vec<Job>, serde_json::Valu
 
 pub fn attribution_for(j: &Job) -> Attribution {
     match j.family {
-        "S" => Attribution { value: vec!["C01", "C14"], panic: vec!["C02"], ..Attribution::standard() },
+        "S" | "T" => Attribution { value: vec!["C01", "C14"], panic: vec!["C02"], ..Attribution::standard() },
         "D" => Attribution { expect_zero_and: true, ..Attribution::standard() },
         _ => Attribution::standard(),
     }
@@ -193,5 +198,5 @@ pub fn run_shared(property: &'static str, tier: Tier, families: &[&str], extra_a
 }
 
 pub fn run(tier: Tier) -> i32 {
-    run_shared("C01", tier, &["E", "S", "P"], vec![])
+    run_shared("C01", tier, &["E", "S", "T", "P"], vec![])
 }
